@@ -171,34 +171,92 @@ def track(ctx):
     spi = repo.func('bridgepoint.oal:set_positional_info')
     NP, PP = param_names(spi, skip_self=False)[:2]
     Q = 'bridgepoint.oal:set_positional_info'
-    table = [
-        ('start offset = lexpos of the first symbol', ['%s.position.start_stream = %s.lexpos(1)' % (NP, PP)]),
-        ('start line = lineno of the first symbol', ['%s.position.start_line = %s.lineno(1)' % (NP, PP)]),
-        ('start column = column of the start offset',
-         ['%s.position.start_column = find_column(%s.lexer.lexdata, %s.position.start_stream)' % (NP, PP, NP)]),
-        ('end offset = end of the last symbol', ['_, %s.position.end_stream = %s.lexspan(len(%s) - 1)' % (NP, PP, PP),
-                                                 '%s.position.end_stream = %s.lexspan(len(%s) - 1)[1]' % (NP, PP, PP)]),
-        ('end line = last line of the last symbol', ['_, %s.position.end_line = %s.linespan(len(%s) - 1)' % (NP, PP, PP),
-                                                     '%s.position.end_line = %s.linespan(len(%s) - 1)[1]' % (NP, PP, PP)]),
-        ('end column = column of the end offset - 1',
-         ['%s.position.end_column = find_column(%s.lexer.lexdata, %s.position.end_stream) - 1' % (NP, PP, NP)]),
-        ('source text = lexdata[start offset:end offset]',
-         ['%s.character_stream = %s.lexer.lexdata[%s.position.start_stream:%s.position.end_stream]' % (NP, PP, NP, NP)]),
-        ('a fresh Position object per node', ['%s.position = Position()' % NP]),
+    # abstract execution with a symbolic Position object: what each field finally holds, in terms of the production `p`
+    from .. import absint, normal
+
+    def is_pos(x, s):
+        return (isinstance(x, ast.Name) and s.get('env', {}).get(x.id) == 'POS') or src(x) == '%s.position' % NP
+
+    def resolve(v, s):
+        class R(ast.NodeTransformer):
+            def visit_Attribute(s2, n):
+                if is_pos(n.value, s) and isinstance(n.ctx, ast.Load) and n.attr in s['fields']:
+                    return normal.clone(s['fields'][n.attr])
+                return s2.generic_visit(n)
+        return R().visit(normal.clone(v))
+
+    def new_pos(e, s, tr):
+        t = e['_X']
+        if isinstance(t, ast.Name):
+            s.setdefault('env', {})[t.id] = 'POS'
+            s['created'] = s.get('created', 0) + 1
+            return True
+        if src(t) == '%s.position' % NP:
+            s['created'] = s.get('created', 0) + 1
+            s['attached'] = True
+            return True
+        return False
+
+    def attach(e, s, tr):
+        if isinstance(e['_X'], ast.Name) and s.get('env', {}).get(e['_X'].id) == 'POS':
+            s['attached'] = True
+            return True
+        return False
+
+    def set_field(e, s, tr):
+        if not is_pos(e['_T'], s):
+            return False
+        f = e['_F']
+        s['fields'][f] = resolve(e['_V'], s)
+        s['order'].append(f)
+        return True
+
+    def set_field_unpacked(e, s, tr):
+        tt = e['_TT']
+        if not isinstance(tt, (ast.Tuple, ast.List)):
+            return False
+        todo = []
+        for k, t in enumerate(tt.elts):
+            if isinstance(t, ast.Name) and t.id == '_':
+                continue
+            if isinstance(t, ast.Attribute) and is_pos(t.value, s):
+                todo.append((k, t.attr))
+            else:
+                return False
+        for k, f in todo:
+            v = ast.Subscript(value=e['_V'], slice=ast.Constant(value=k), ctx=ast.Load())
+            s['fields'][f] = resolve(ast.copy_location(v, e['_V']), s)
+            s['order'].append(f)
+        return True
+
+    def set_text(e, s, tr):
+        s['fields']['character_stream'] = resolve(e['_V'], s)
+        s['order'].append('character_stream')
+        return True
+    si = absint.Interp(spi, [], [('_X = Position()', new_pos), ('%s.position = _X' % NP, attach), ('_TT = _V', set_field_unpacked),
+                                 ('%s.character_stream = _V' % NP, set_text), ('_T._F = _V', set_field)])
+    si.pure_calls = {'lexpos', 'lineno', 'lexspan', 'linespan', 'find_column'}
+    st_ = {'fields': {}, 'order': []}
+    out, tr = si.run(st_)
+    LAST = 'len(%s) - 1' % PP
+    END = '%s.lexspan(%s)[1]' % (PP, LAST)
+    want = [
+        ('start offset = lexpos of the first symbol', 'start_stream', '%s.lexpos(1)' % PP),
+        ('start line = lineno of the first symbol', 'start_line', '%s.lineno(1)' % PP),
+        ('start column = column of the start offset', 'start_column', 'find_column(%s.lexer.lexdata, %s.lexpos(1))' % (PP, PP)),
+        ('end offset = end of the last symbol', 'end_stream', END),
+        ('end line = last line of the last symbol', 'end_line', '%s.linespan(%s)[1]' % (PP, LAST)),
+        ('end column = column of the end offset - 1', 'end_column', 'find_column(%s.lexer.lexdata, %s) - 1' % (PP, END)),
+        ('source text = lexdata[start offset:end offset]', 'character_stream', '%s.lexer.lexdata[%s.lexpos(1):%s]' % (PP, PP, END)),
     ]
-    body = body_without_doc(spi)
-    for what, pats in table:
-        hit = [st for st in body if any(pm.match(pt, st) is not None for pt in pats)]
-        r.check(len(hit) == 1, 'set_positional_info: ' + what, spi, construct=Q, key=what,
-                msg='set_positional_info no longer computes: %s' % what)
-    # no later overwrite of the fields: each position field assigned exactly once
-    assigned = {}
-    for st in body:
-        if isinstance(st, ast.Assign):
-            for t in st.targets:
-                for x in (t.elts if isinstance(t, ast.Tuple) else [t]):
-                    assigned[src(x)] = assigned.get(src(x), 0) + 1
-    dup = [k for k, v in assigned.items() if v > 1 and k != '_']
+    for what, field, expr in want:
+        got = st_['fields'].get(field)
+        ok = got is not None and src(got) == src(ast.parse(expr).body[0].value)
+        r.check(ok, 'set_positional_info: ' + what, spi, construct=Q, key=what,
+                msg='set_positional_info no longer computes: %s (the field finally holds `%s`)' % (what, src(got) if got is not None else None))
+    r.check(st_.get('created') == 1 and st_.get('attached'), 'set_positional_info: a fresh Position object per node', spi, construct=Q,
+            key='a fresh Position object per node', msg='set_positional_info no longer computes: a fresh Position object per node')
+    dup = sorted(set(f for f in st_['order'] if st_['order'].count(f) > 1))
     r.check(not dup, 'each position field is assigned once', spi, construct=Q, key='single-assignment',
             msg='set_positional_info assigns %s more than once' % dup)
     fc = repo.func('bridgepoint.oal:find_column')
